@@ -191,6 +191,10 @@ def payload_panics(err):
             nxt = lines[i + 1] if i + 1 < len(lines) else ""
             if "crossterm" in l and "reader source not set" in nxt:
                 continue
+            if "error binding to" in l or "error binding to" in nxt:
+                # the port the harness picked for --serve-port was taken by another process in the meantime (busy machine):
+                # the web server of this run is missing, which is the harness's doing
+                continue
             out.append(l.strip() + " | " + nxt.strip())
     return out
 
@@ -504,6 +508,12 @@ def c11_scenario(rep, binary, workdir, rng, frame_maker, attempt=0):
             raise Inconclusive("jet1090 rejected the command line of the system scenario: " + err[-400:])
         rep.violation("C11:system:crash", f"jet1090 exited with {code}: {err[-300:]}", replay)
         return
+    if "error binding to" in err:
+        rep.evaluations -= 1
+        rep.cls("system:serve-port-taken(scenario not judged, repeated)")
+        if attempt < 3:
+            return c11_scenario(rep, binary, workdir, rng, frame_maker, attempt=attempt + 1)
+        return
     for p in payload_panics(err):
         rep.violation("C11:system:panic", f"jet1090 panicked: {p}", replay)
     want_df = None if not df_filter else set(str(d) for d in df_filter)
@@ -600,6 +610,10 @@ def c12_scenario(rep, binary, workdir, rng, scenario_lines):
         code, err = run.stop()
     rep.evaluations += 1
     replay = {"mode": "system", "scenario": "c12", "frames": len(frames)}
+    if "error binding to" in err:
+        rep.evaluations -= 1
+        rep.cls("system:serve-port-taken(scenario not judged)")
+        return
     for p in payload_panics(err):
         rep.violation("C12:system:panic", f"jet1090 panicked: {p}", replay)
     if table is None:
